@@ -103,16 +103,33 @@ def gen_case(rng, allow, monitor, with_consts=True):
     inl = inline(defs)
     allvars = sorted({v for nm in inl for v in F.variables(inl[nm])})
     # spelling of the interval bounds: plain numbers (default unit) or explicit units (same durations; default unit s, period 1 s)
-    unit_mode = rng.choice([None, None, None, "s", "ms", "us"])
+    unit_mode = rng.choice([None, None, None, "s", "ms", "us", "constmix"])
     comments = [rng.choice([0, 1, 2, 3]) for _ in defs] if rng.random() < 0.3 else None
     return {"monitor": monitor, "defs": defs, "inl": inl, "f": inl["out"], "consts": consts, "cmap": cmap, "style": style,
             "n": n, "vars": allvars or ["a"], "data": F.gen_trace(rng, allvars or ["a"], n), "unit_mode": unit_mode, "comments": comments}
 
 
-def bound_fn(case):
+def bound_fn(case, with_names=False):
     m = case.get("unit_mode")
     if m is None:
         return lambda k: str(k)
+    if m == "constmix":
+        # [a, b] is written `[<1000a> : <1000b>ms]`: the lower bound has no unit and takes the one of the upper bound; in the
+        # modular text the lower numeral is a declared constant `const int KB<a> = <1000a>` (to_text asks for the lower bound,
+        # then for the upper bound of every interval)
+        state = {"k": 0}
+        used = set()
+
+        def fn(k):
+            state["k"] += 1
+            if state["k"] % 2 == 0:
+                return "%dms" % (k * 1000)
+            if with_names:
+                used.add(k)
+                return "KB%d" % k
+            return str(k * 1000)
+        fn.used = used
+        return fn
     mult = {"s": 1, "ms": 1000, "us": 1000000}[m]
     return lambda k: "%d%s" % (k * mult, m)
 
@@ -138,7 +155,9 @@ def build(case, kind, modular=True, only=None):
         return spec
     defs = case["defs"]
     names = [nm for nm, _ in defs[:-1]]
-    lines = ["%s = %s;" % (nm, render_body(b, case["cmap"], bound_fn(case))) for nm, b in defs]
+    bf = bound_fn(case, with_names=True)
+    lines = ["%s = %s;" % (nm, render_body(b, case["cmap"], bf)) for nm, b in defs]
+    bconsts = [("KB%d" % a, "int", str(a * 1000)) for a in sorted(getattr(bf, "used", ()))]
     # comments of the specification language after an assertion (line comments run to the end of the line)
     cm = case.get("comments")
     if cm:
@@ -146,15 +165,16 @@ def build(case, kind, modular=True, only=None):
         lines = [l + {0: "", 1: " // " + nm_, 2: " /* " + nm_ + " */", 3: "   // x >= 1; y = 2;"}[k if j < len(lines) - 1 else 0]
                  for j, (l, (nm_, _), k) in enumerate(zip(lines, defs, cm))]
     if case["style"] == "text":
-        spec = impl.make_spec(kind, "\n".join(lines), case["vars"], extra_decl=names, consts=case["consts"])
+        spec = impl.make_spec(kind, "\n".join(lines), case["vars"], extra_decl=names, consts=list(case["consts"]) + bconsts)
     else:
-        spec = impl.make_spec(kind, lines[-1], case["vars"], extra_decl=names, consts=case["consts"], sub_specs=lines[:-1])
+        spec = impl.make_spec(kind, lines[-1], case["vars"], extra_decl=names, consts=list(case["consts"]) + bconsts, sub_specs=lines[:-1])
     spec.parse()
     return spec
 
 
 def spec_text(case):
-    return "\n".join("%s = %s;" % (nm, render_body(b, case["cmap"], bound_fn(case))) for nm, b in case["defs"]) + \
+    bf = bound_fn(case, with_names=True)
+    return "\n".join("%s = %s;" % (nm, render_body(b, case["cmap"], bf)) for nm, b in case["defs"]) + \
         ("   [consts %s]" % case["consts"] if case["consts"] else "") + "   [%s]" % case["style"]
 
 
